@@ -356,7 +356,10 @@ class HistogramBase(abc.ABC):
         if self._errors2 is not None:
             self._errors2 = self._errors2.astype(value)
         if self._missed is not None:
-            self._missed = self._missed.astype(value)
+            unknown = self._missed.dtype.kind == "f" and np.isnan(self._missed).any()
+            if not (unknown and value.kind in "iu"):
+                # NaN (= unknown, e.g. for inconsecutive bins) cannot be stored as integer
+                self._missed = self._missed.astype(value)
 
     def _coerce_dtype(self, other_dtype: DTypeLike) -> None:
         """Possibly change the bin content type to allow correct operations with other operand.
